@@ -78,7 +78,7 @@ KINDS = ("node", "apside", "anomaly", "signal", "mask", "max", "radial", "umbra"
 
 # ------------------------------------------------------------------------------------------------
 def jobs(tier):
-    n = 72 if tier == "quick" else 1200
+    n = 72 if tier == "quick" else 1040
     return [{"name": "streams", "n": n, "eop": "real", "timeout": 1500 if tier == "quick" else 7200}]
 
 
@@ -184,7 +184,7 @@ class Pt:
     """A state of the stream (sample, event or auxiliary propagated point) with lazily computed
     oracle quantities."""
 
-    __slots__ = ("env", "obj", "date", "t", "_cart", "_sun", "_look", "_elts")
+    __slots__ = ("env", "obj", "date", "t", "_cart", "_sun", "_look", "_elts", "_g")
 
     def __init__(self, env, obj):
         self.env = env
@@ -195,6 +195,7 @@ class Pt:
         self._sun = None
         self._look = {}
         self._elts = {}
+        self._g = {}
 
     def cart(self, frame=None):
         key = frame or self.env.native
@@ -294,6 +295,22 @@ class Spec:
 
     # --- the watched quantity, oracle's own definition ------------------------------------------
     def g(self, pt):
+        v = pt._g.get(id(self))
+        if v is None:
+            v = self._g(pt)
+            pt._g[id(self)] = v
+        return v
+
+    def sign(self, pt):
+        """(g, sign) with sign = 0 for a don't-care sample: |g| below the noise-safe floor, or (anomaly) within
+        the floor of the +-pi wrap-around where the sign of the wrapped difference is ambiguous."""
+        v = self.g(pt)
+        e = self.eps(pt)
+        if self.kind == "anomaly" and abs(v) > math.pi - e:
+            return v, 0
+        return v, sgn(v, e)
+
+    def _g(self, pt):
         k = self.kind
         if k == "node":
             c = pt.cart(self.frame)
@@ -327,6 +344,11 @@ class Spec:
     def eps(self, pt):
         """don't-care half-width of the watched quantity at this state."""
         k = self.kind
+        if k == "anomaly" and self.anomaly != "aol":
+            # nu, E, M are measured from the pericentre: conditioning 1/e of the *osculating* eccentricity (J2 / SGP4
+            # short-period terms can bring it well below the mean e >= 1e-4 of the quantifier); rounding noise of a
+            # position is ~1e-16 relative, so 1e-13/e keeps the 1000 x margin of EPS_ANGLE at e = 1e-4
+            return max(EPS_ANGLE, 1e-13 / max(pt.elts(self.frame)["e"], 1e-12))
         if k in ("node", "anomaly", "signal", "mask", "terminator", "umbra", "penumbra"):
             return EPS_ANGLE
         if k == "apside" or (k == "radial" and self.topo is None):
@@ -656,6 +678,15 @@ def run_case(ctx, job, idx, rng, st):
     oc = gen_orbit(rng, ocls, mjd)
     nlis = [1, 2, 3, 5, 8, 11, 4, 11, 6, 2][(idx // 3) % 10]
     listeners = gen_listeners(st, rng, nlis, idx)
+    if ocls == "leo-zero-start":
+        # the initial state sits exactly on a node / an apside / the watched anomaly value: the first sample of
+        # these listeners is an (almost) exact zero -- the false-alarm trap of DESIGN section 6
+        from beyond.propagators import listeners as _L
+
+        zero = [_L.NodeListener(), _L.ApsideListener(), _L.AnomalyListener(oc["nu"] % TWO_PI, anomaly="true"),
+                _L.AnomalyListener((oc["nu"] + oc["argp"]) % TWO_PI, anomaly="aol")]
+        listeners = (zero + listeners)[:max(nlis, 4)]
+        nlis = len(listeners)
     base_prop = prop if prop != "Ephem" else rng.choice(["Kepler", "Sgp4", "J2"])
     orb, native, pd, cart = make_orbit(st, oc, date, base_prop, rng)
 
@@ -712,14 +743,14 @@ def run_case(ctx, job, idx, rng, st):
         ephem.method = emethod
         pd.update(ephem_step=estep, ephem_method=emethod)
         mode = rng.choice(["range", "native-step", "dates-list"])
-        if mode == "native-step":
-            step_eff = estep
         ctx.count(f"ephem:{emethod}")
     ctx.count(f"mode:{mode}")
 
     def iterate(direction, mode_, env, listeners_):
         """One recorded iteration; returns (stream, log)."""
         st["log"].clear()
+        st["listen_depth"] = 0
+        st.pop("cur_rec", None)
         if direction > 0:
             a, b, s_ = date, date + tspan, tstep
         else:
@@ -744,18 +775,21 @@ def run_case(ctx, job, idx, rng, st):
         st["log"].clear()
         return stream, log
 
-    ctx.case(descr)
-
     env1 = mkenv(+1, "1:forward")
     if base_prop == "Kepler" and prop in ("Kepler",):
         env1.kepler = kepler_data(st, cart, t_us(date, d0))
     try:
         stream1, log1 = iterate(+1, mode, env1, listeners)
     except Exception as exc:
+        ctx.case(descr, nontrivial=False)
+        if prop == "KeplerNum":
+            # failures of the numerical integrator itself (step-size control, short spans) are C06/C08's subject
+            ctx.count("skipped:keplernum-iteration-raises")
+            raise HarnessSkip()
         lib_exception(ctx, f"C10/iteration-raises-{prop}", env1, exc, "forward iteration with listeners")
         return
     ctx.count("dir:forward")
-    check_stream(ctx, st, env1, stream1, log1, specs, stats, first_use=True)
+    check_stream(ctx, st, env1, stream1, log1, specs, stats)
     recorded1 = [(t_us(x.date, d0), x.event.info if x.event else None) for x in stream1]
 
     # ------------------------------------------------------------------ iteration 2: same listener objects
@@ -862,8 +896,9 @@ def run_case(ctx, job, idx, rng, st):
     if idx % 3 == 1 and mode != "native-step" and prop != "KeplerNum":
         filter_case(ctx, st, rng, mkenv, orb if prop != "Ephem" else ephem, date, tspan, tstep, listeners, recorded1, d0, mode)
 
-    if not (stats["events"] and stats["judged_change"] and stats["judged_nochange"]):
-        ctx.nontrivial.discard(__import__("vmon.ctx", fromlist=["digest"]).digest(descr))
+    nontrivial = bool(stats["events"] and stats["judged_change"] and stats["judged_nochange"])
+    ctx.case(descr, nontrivial=nontrivial)
+    if not nontrivial:
         ctx.count("case:trivial")
 
 
@@ -878,17 +913,17 @@ def M_from_nu(e, nu):
     return E - e * math.sin(E)
 
 
-def closed_form_dt(kd, spec, label, te):
+def closed_form_dt(kd, spec, up, te):
     """Time offset (s) of the event from the nearest closed-form crossing time, or None when the
     closed form does not apply to this listener."""
     e, n = kd["e"], kd["n"]
     k = spec.kind
     if k == "apside":
-        Ms = 0.0 if label == "Periapsis" else math.pi
+        Ms = 0.0 if up > 0 else math.pi  # radial rate - -> + in time: periapsis
     elif k == "node":
         if spec.frame not in (None, "EME2000"):
             return None
-        nu = -kd["argp"] if label == "Asc Node" else math.pi - kd["argp"]
+        nu = -kd["argp"] if up > 0 else math.pi - kd["argp"]  # latitude - -> + in time: ascending node
         Ms = M_from_nu(e, nu)
     elif k == "anomaly":
         if spec.frame not in (None, "EME2000"):
@@ -908,7 +943,7 @@ def closed_form_dt(kd, spec, label, te):
 
 
 # ------------------------------------------------------------------------------------------------
-def check_stream(ctx, st, env, stream, log, specs, stats, first_use=False, spec_of=None):
+def check_stream(ctx, st, env, stream, log, specs, stats, spec_of=None, skip_ids=()):
     """The offline checker of one recorded iteration."""
     d0 = env.d0
     direction = env.direction
@@ -935,6 +970,13 @@ def check_stream(ctx, st, env, stream, log, specs, stats, first_use=False, spec_
                 ok = False
                 break
             xi = x.event.info if getattr(x, "event", None) else None
+            # When the crossing lies within the last microsecond before a sample (in practice: the sample is an
+            # exact zero of the watched quantity -- the don't-care situation), _bisect returns the sample object
+            # itself: the sample then also carries the event.  Not judged.
+            aliased = any(ev is rec["orb"] for ev in rec["events"])
+            if aliased:
+                ctx.count("dontcare:event-object-is-the-sample")
+                continue
             oi = obj.event.info if kind == "event" and obj.event else None
             if xi != oi:
                 ok = False
@@ -948,8 +990,14 @@ def check_stream(ctx, st, env, stream, log, specs, stats, first_use=False, spec_
     # ---- 1. chronological order of the whole stream (exact integer microseconds)
     ts = [t_us(x.date, d0) for x in stream]
     ctx.count("order-checked")
+    def aliased_step(rec):
+        return any(ev is rec["orb"] for ev in rec["events"])
+
     for k in range(1, len(ts)):
         if (ts[k] - ts[k - 1]) * direction < 0:
+            if aliased_step(full[k][2]) or aliased_step(full[k - 1][2]):
+                ctx.count("dontcare:order-in-step-with-event-object-is-the-sample")
+                continue
             # which mechanism?  two events of one step in a backward iteration, or something else
             a, b = full[k - 1], full[k]
             same_step = a[2] is b[2] and a[0] == "event" and b[0] == "event"
@@ -992,6 +1040,12 @@ def check_stream(ctx, st, env, stream, log, specs, stats, first_use=False, spec_
         rec = log[k]
         prev_obj, cur_obj = log[k - 1]["orb"], rec["orb"]
         ppt, cpt = pt_of(prev_obj), pt_of(cur_obj)
+        if any(ev is cur_obj for ev in rec["events"]):
+            # the sample doubles as the event object (exact-zero sample): the event -> listener mapping is
+            # overwritten; the whole step is don't-care
+            ctx.count("dontcare:step-with-event-object-is-the-sample")
+            ctx.count("dontcare:zero-sample")
+            continue
         emitted = {}
         for ev in rec["events"]:
             lid = id(ev.event.listener) if ev.event is not None else None
@@ -1004,12 +1058,10 @@ def check_stream(ctx, st, env, stream, log, specs, stats, first_use=False, spec_
                 ctx.count("step:multi-event-backward")
         for j, lis in enumerate(rec["listeners"]):
             spec = spec_by_id.get(id(lis))
-            if spec is None:
+            if spec is None or id(lis) in skip_ids:
                 continue
             kind = spec.kind
-            gp, gc = spec.g(ppt), spec.g(cpt)
-            ep, ec = spec.eps(ppt), spec.eps(cpt)
-            sp, sc = sgn(gp, ep), sgn(gc, ec)
+            (gp, sp), (gc, sc) = spec.sign(ppt), spec.sign(cpt)
             ev = emitted.get(id(lis))
             w = None
 
@@ -1018,26 +1070,34 @@ def check_stream(ctx, st, env, stream, log, specs, stats, first_use=False, spec_
                             g_own=[gp, gc], g_lib=list(rec["glib"][j]), event=str(ev.date) if ev is not None else None,
                             event_info=ev.event.info if ev is not None else None)
 
-            # library's own evaluations vs the oracle's definition
+            # library's own evaluations (captured in Listener.check) vs the oracle's definition
             glp, glc = rec["glib"][j]
             for (gl, go, so, pt_) in ((glp, gp, sp, ppt), (glc, gc, sc, cpt)):
-                if gl is None or so == 0:
+                if gl is None:
                     continue
-                if sgn(gl) != so:
-                    if kind in ("umbra", "penumbra") and shadow_sample_dontcare(env, spec, pt_, sgn(gl)):
+                if kind in ("umbra", "penumbra"):
+                    if so == 0 or sgn(gl) == so:
+                        ctx.ok()
+                        continue
+                    if shadow_sample_dontcare(env, spec, pt_, sgn(gl)):
                         ctx.count(f"dontcare:shadow-boundary-within-tolerance:{kind}")
-                        # adopt the library's view for the <=> decision of this step
+                        # adopt the library's classification of this sample for the <=> decision of this step
                         if pt_ is ppt:
                             sp = sgn(gl)
                         else:
                             sc = sgn(gl)
                         continue
-                    key = (f"C10/shadow-state-differs-from-cone-geometry-{kind}" if kind in ("umbra", "penumbra")
-                           else f"C10/watched-quantity-differs-from-definition-{kind}")
-                    ctx.violation(key, dict(wit(), sample=str(pt_.date), lib=gl, own=go),
-                                  f"{kind}: library evaluates the watched quantity to {gl!r} at {pt_.date}, the definition gives {go!r}")
-                else:
-                    ctx.ok()
+                    ctx.violation(f"C10/shadow-state-differs-from-cone-geometry-{kind}", dict(wit(), sample=str(pt_.date), lib=gl, own=go),
+                                  f"{kind}: library classifies the sample at {pt_.date} as {'lit' if gl > 0 else 'shadow'} but the independent "
+                                  f"cone geometry gives g = {go!r} rad, and no cone crossing lies within the tolerance of the sample")
+                    continue
+                d = abs(gl - go)
+                if kind == "anomaly":
+                    d = abs(el.wrap(gl - go))
+                # tolerance = the don't-care floor (1e-9 of the natural scale; rounding differences probed <= 1e-14 of it x 1e5)
+                ctx.resid(f"g-lib-vs-own:{kind}", d, spec.eps(pt_), key=f"C10/watched-quantity-differs-from-definition-{kind}",
+                          witness=dict(wit(), sample=str(pt_.date), lib=gl, own=go),
+                          msg=f"{kind}: library evaluates the watched quantity to {gl!r} at {pt_.date}, the definition gives {go!r}")
             vis = spec.visible(cpt)
             if sp == 0 or sc == 0 or vis is None:
                 ctx.count("dontcare:zero-sample")
@@ -1073,25 +1133,23 @@ def check_stream(ctx, st, env, stream, log, specs, stats, first_use=False, spec_
             te = ept.t
             # between the two samples
             lo, hi = (ppt.t, cpt.t) if direction > 0 else (cpt.t, ppt.t)
-            if not (lo < te < hi):
-                if te in (lo, hi):
-                    ctx.count("event-at-sample-date")
-                    ctx.expect(abs(spec.g(ept)) <= 10 * spec.eps(ept) + abs(gc - gp) * 2e-6 / max(1e-6, abs(hi - lo) * US),
-                               f"C10/event-not-between-samples-{kind}", wit(), f"event at the date of a sample whose watched quantity is not ~0")
-                else:
-                    ctx.violation(f"C10/event-not-between-samples-{kind}", wit(), f"event at {ev.date} outside ({prev_obj.date}, {cur_obj.date})")
-                    continue
+            if not (lo <= te <= hi):
+                ctx.violation(f"C10/event-not-between-samples-{kind}", wit(), f"event at {ev.date} outside ({prev_obj.date}, {cur_obj.date})")
+                continue
+            if te in (lo, hi):
+                # crossing within the last microsecond before a sample (probability ~1e-7 per event): the
+                # bisection returns the sample itself; not judged here, the sharpness check below still applies
+                ctx.count("event-at-sample-date")
             else:
                 ctx.ok()
-            early, late = (ppt, cpt) if direction > 0 else (cpt, ppt)
-            g_early, g_late = (gp, gc) if direction > 0 else (gc, gp)
+            g_late = gc if direction > 0 else gp
             sharp = sharpness(ctx, st, env, spec, ev, ept, wit, bsuf)
             up_local = sharp  # +1: watched quantity goes - -> + in physical time at the event; None if undetermined
             up_samples = 1 if sgn(g_late) > 0 else -1
             up = up_local if up_local is not None else up_samples
             check_label(ctx, env, spec, ev, up, wit, bsuf)
             if env.kepler is not None:
-                dtc = closed_form_dt(env.kepler, spec, ev.event.info, te)
+                dtc = closed_form_dt(env.kepler, spec, up, te)
                 if dtc is not None:
                     ctx.count(f"closed-form:{kind}")
                     # the event lies within 1 us *after* (in iteration order) the crossing
@@ -1113,13 +1171,23 @@ def sharpness(ctx, st, env, spec, ev, ept, wit, bsuf):
     variation.  Returns +1 / -1 = direction of the crossing in physical time (None if undetermined)."""
     kind = spec.kind
     try:
+        p0 = Pt(env, propagate_at(env, ev.date, 0))
         pm3 = Pt(env, propagate_at(env, ev.date, -SHARP_US))
         pm1 = Pt(env, propagate_at(env, ev.date, -1))
         pp1 = Pt(env, propagate_at(env, ev.date, +1))
         pp3 = Pt(env, propagate_at(env, ev.date, +SHARP_US))
+    except ValueError:
+        ctx.count("sharp:skipped-out-of-ephemeris-range")  # event within 3 us of the end of an ephemeris
+        return None
     except Exception as exc:
         ctx.violation("C10/propagate-around-event-raises", dict(wit(), exc=repr(exc)), f"speaker.propagate a few us around an event raised {exc!r}")
         return None
+    # the emitted state is the trajectory at the emitted date (same function, same date: identical up to the
+    # 1e-9 m round trip of a visibility point converted in place to the station frame; tolerance 1e-5 m is
+    # 1e4 x that and 1000 x smaller than the motion during one microsecond)
+    dpos = float(np.linalg.norm(p0.cart()[:3] - ept.cart()[:3]))
+    ctx.resid("event-state-vs-trajectory", dpos, 1e-5, key="C10/event-state-is-not-the-trajectory-at-its-date",
+              witness=dict(wit(), dpos=dpos), msg=f"{kind}: the event state at {ev.date} is {dpos!r} m away from speaker.propagate(event date)")
     if kind in ("umbra", "penumbra"):
         # the library's watched quantity is the discrete illumination state (+-1); the oracle's smooth
         # function is compared in time (shadow_time), not at the microsecond level
@@ -1134,11 +1202,6 @@ def sharpness(ctx, st, env, spec, ev, ept, wit, bsuf):
     has_change = any(a != b for a, b in zip(signs, signs[1:])) or any(abs(v) <= eps for v in vals)
     ctx.expect(has_change, f"C10/event-not-at-sign-change-{kind}{bsuf}", dict(wit(), g_around=vals, offsets_us=[-3, -1, 0, 1, 3]),
                f"{kind}: watched quantity does not change sign within +-{SHARP_US} us of the event at {ev.date}: {vals}")
-    if kind not in ("umbra", "penumbra"):
-        # |g(event)| <= variation of g over the +-3 us window (+ don't-care floor): 'the quantity is zero at the event'
-        var = max(vals) - min(vals)
-        ctx.resid(f"zero:{kind}", abs(vals[2]), var + eps, key=f"C10/event-value-not-zero-{kind}{bsuf}", witness=dict(wit(), g_around=vals),
-                  msg=f"{kind}: |g(event)| = {abs(vals[2])!r} exceeds the variation of g over +-3 us ({var!r})")
     if not has_change:
         return None
     s_first, s_last = signs[0], signs[-1]
@@ -1149,6 +1212,8 @@ def sharpness(ctx, st, env, spec, ev, ept, wit, bsuf):
 
 def check_label(ctx, env, spec, ev, up, wit, bsuf):
     kind = spec.kind
+    if kind in ("node", "signal", "terminator", "anomaly", "radial"):
+        bsuf = ""  # these labels come from a physical derivative / a constant: one mechanism whatever the direction
     info = ev.event.info
     ctx.count(f"label:{kind}")
     exp = None
@@ -1205,8 +1270,9 @@ def shadow_sample_dontcare(env, spec, pt, lib_sign):
     try:
         a = own_shadow_g(env, spec, pt.date, -tol)
         b = own_shadow_g(env, spec, pt.date, +tol)
-    except Exception:
-        return False
+    except ValueError:
+        # an ephemeris cannot be evaluated outside its range (first / last sample): not judged
+        return True
     return sgn(a) == lib_sign or sgn(b) == lib_sign
 
 
@@ -1249,6 +1315,11 @@ def shadow_time(ctx, env, spec, ev, ept, wit, bsuf):
                 side = 1
             if gx == 0:
                 break
+    except ValueError as exc:
+        # documented refusal: an ephemeris (Ephem, KeplerNum's internal one) cannot be evaluated outside its range;
+        # happens when the event is closer to the first / last node than the search window
+        ctx.count("shadow-time:skipped-out-of-ephemeris-range")
+        return
     except Exception as exc:
         ctx.violation("C10/propagate-around-event-raises", dict(wit(), exc=repr(exc)), f"propagation around a light event raised {exc!r}")
         return
@@ -1318,6 +1389,10 @@ def visibility_case(ctx, st, rng, mkenv, topo, target, prop, date, tspan, tstep,
             full.append(("event", ev))
         full.append(("sample", rec["orb"]))
     env.speaker = log[0]["speaker"]
+    if any(ev is rec["orb"] for rec in log for ev in rec["events"]):
+        # a sample that is an exact zero of a watched quantity doubles as its own event object (don't care)
+        ctx.count("dontcare:visibility-stream-with-event-object-is-the-sample")
+        return
     station_ids = {id(s.lis) for s in station_lis}
     expected = []
     dontcare = 0
@@ -1333,12 +1408,16 @@ def visibility_case(ctx, st, rng, mkenv, topo, target, prop, date, tspan, tstep,
             dontcare += 1
         elif elev > 0:
             expected.append((obj, True))
-    # compare as sequences of object identities (None = may or may not be present)
+    # compare as sequences of (exact date, event label) (None = may or may not be present); KeplerNum re-wraps
+    # the objects (as_orbit), so identity cannot be used there
+    def ident(o):
+        return (t_us(o.date, env.d0), o.event.info if getattr(o, "event", None) else None)
+
     vi = 0
     okseq = True
     why = ""
     for obj, must in expected:
-        if vi < len(vis) and vis[vi] is obj:
+        if vi < len(vis) and (vis[vi] is obj or ident(vis[vi]) == ident(obj)):
             vi += 1
         elif must is None:
             continue
@@ -1362,8 +1441,56 @@ def visibility_case(ctx, st, rng, mkenv, topo, target, prop, date, tspan, tstep,
             own = Pt(env, x).look(topo)["el"]
             ctx.resid("visibility:phi-vs-own-elevation", abs(float(x.phi) - own), 1e-9, key="C10/visibility-elevation-differs", witness=dict(env.witness, date=str(x.date), phi=float(x.phi), own=own),
                       msg="phi of a visibility point differs from the independent elevation")
+    # history: the same call again with the same `listeners=` list object must give the same stream
+    if "listeners" in kw:
+        n_before = len(kw["listeners"])
+        st["log"].clear()
+        try:
+            vis2 = list(topo.frame.visibility(target, **kw))
+        except Exception as exc:
+            lib_exception(ctx, "C10/visibility-raises", env, exc, "second station.visibility() call with the same listeners list")
+            vis2 = None
+        st["log"].clear()
+        if vis2 is not None:
+            ctx.count("visibility:repeat-with-same-listeners-list")
+            a = [(t_us(x.date, env.d0), x.event.info if x.event else None) for x in vis]
+            b = [(t_us(x.date, env.d0), x.event.info if x.event else None) for x in vis2]
+            ctx.expect(a == b, "C10/visibility-extends-callers-listeners-list-so-a-repeat-duplicates-events",
+                       dict(env.witness, n_first=len(a), n_second=len(b), len_listeners_before_second_call=n_before,
+                            len_listeners_after=len(kw["listeners"]),
+                            events_first=[e for e in a if e[1]][:12], events_second=[e for e in b if e[1]][:12]),
+                       f"station.visibility(orb, listeners=L, events=[..]) called twice with the same list L: first stream {len(a)} elements, "
+                       f"second {len(b)} (L grew to {len(kw['listeners'])} listeners: the station listeners are appended to the caller's list at every call)")
+    # visibility() converts every yielded point *in place* to the station frame; the same objects are the
+    # `prev` of the listeners at the next step.  Listeners that evaluate g in "the frame of the orbit"
+    # (frame=None) then see prev in the station frame.  One precise key for this mechanism; the listeners
+    # affected are excluded from the generic check (their events are explained by it).
+    corrupted = {}
+    for k in range(1, len(log)):
+        rec = log[k]
+        ppt = Pt(env, log[k - 1]["orb"])
+        for j, lis in enumerate(rec["listeners"]):
+            spec = spec_of.get(id(lis))
+            if spec is None or spec in station_lis or id(lis) in corrupted or spec.kind in ("umbra", "penumbra"):
+                continue
+            glp = rec["glib"][j][0]
+            if glp is None:
+                continue
+            go = spec.g(ppt)
+            d = abs(el.wrap(glp - go)) if spec.kind == "anomaly" else abs(glp - go)
+            if d > 1e3 * spec.eps(ppt):
+                corrupted[id(lis)] = dict(listener=spec.descr(), prev=str(ppt.date), g_prev_lib=glp, g_prev_own=go,
+                                          prev_frame_now=log[k - 1]["orb"].frame.name, prev_form_now=log[k - 1]["orb"].form.name)
+    for lid, wv in corrupted.items():
+        n_ev = sum(1 for kind, o in full if kind == "event" and id(o.event.listener) == lid)
+        ctx.violation("C10/visibility-converts-samples-in-place-so-listener-prev-is-in-station-frame",
+                      dict(env.witness, n_events_of_this_listener=n_ev, n_samples=len(log), **wv),
+                      f"station.visibility({variant}): listener {wv['listener']['type']} evaluated its previous sample in frame "
+                      f"{wv['prev_frame_now']} ({wv['g_prev_lib']!r} instead of {wv['g_prev_own']!r}); {n_ev} events emitted over {len(log)} samples")
+    if extra and not corrupted:
+        ctx.count("visibility:extra-listeners-consistent")
     # and the underlying stream obeys the general specification (AOS/LOS at zero elevation, MAX at zero rate ...)
-    check_stream(ctx, st, env, [o for _, o in full], log, vspecs, stats, spec_of=spec_of)
+    check_stream(ctx, st, env, [o for _, o in full], log, vspecs, stats, spec_of=spec_of, skip_ids=set(corrupted))
 
 
 def filter_case(ctx, st, rng, mkenv, target, date, tspan, tstep, listeners, recorded1, d0, mode):
@@ -1399,11 +1526,17 @@ def filter_case(ctx, st, rng, mkenv, target, date, tspan, tstep, listeners, reco
             name = rng.choice(names)
             ref = [r for r in ev_ref if r[1] == name]
             off = rng.randrange(len(ref))
-            x = L.find_event(it(), name, offset=off)
             ctx.count("find_event:calls")
-            ctx.expect((t_us(x.date, d0), x.event.info) == ref[off], "C10/find_event-wrong-event",
-                       dict(env.witness, name=name, offset=off, got=[str(x.date), x.event.info], ref=ref[off]),
-                       f"find_event(.., {name!r}, offset={off}) returned another event than the {off}-th one of the stream")
+            try:
+                x = L.find_event(it(), name, offset=off)
+            except RuntimeError as exc:
+                ctx.violation("C10/find_event-refuses-an-existing-event", dict(env.witness, name=name, offset=off, n=len(ref), exc=repr(exc)),
+                              f"find_event(.., {name!r}, offset={off}) raised although the stream has {len(ref)} such events")
+                x = None
+            if x is not None:
+                ctx.expect((t_us(x.date, d0), x.event.info) == ref[off], "C10/find_event-wrong-event",
+                           dict(env.witness, name=name, offset=off, got=[str(x.date), x.event.info], ref=ref[off]),
+                           f"find_event(.., {name!r}, offset={off}) returned another event than the {off}-th one of the stream")
             try:
                 y = L.find_event(it(), name, offset=len(ref) + 3)
                 # the identical iteration has only len(ref) such events (the range-mode stop sample cannot add 3)
